@@ -29,7 +29,7 @@ theorem skipText_split : ∀ (evs : List Ev), ∃ pre, evs = pre ++ skipText evs
     exact congrArg _ h1
   | .start n a :: r => ⟨[], by simp [skipText]⟩
   | .stop n :: r => ⟨[], by simp [skipText]⟩
-  | .bad :: r => ⟨[], by simp [skipText]⟩
+  | .bad e :: r => ⟨[], by simp [skipText]⟩
 
 theorem expectStart_ok {name : Bytes} {evs r : List Ev} (h : expectStart name evs = .ok r) :
     ∃ pre a, evs = pre ++ .start name a :: r ∧ pre.all Ev.isText = true := by
@@ -98,6 +98,388 @@ theorem decodeDoc_named_ok (X : Ext) {root : Bytes} {s : Sch} {evs : List Ev} {v
           obtain ⟨pre, a, he, hp⟩ := expectStart_ok h1
           obtain ⟨mid, hm, hmt⟩ := expectEnd_ok h3
           exact ⟨pre, a, r, r', mid, r'', he, hp, h2, hm, hmt, expectEof_ok h4⟩
+
+theorem decodeField_ne' (X : Ext) {name tag : Bytes} (h : name ≠ tag) {pres : Pres} {shape : Shape} {s : Sch}
+    {rest : Flds} {evs : List Ev} {slot : FVal} {accRest : List FVal} :
+    decodeField X (.cons tag pres shape s rest) name evs (slot :: accRest)
+      = (match decodeField X rest name evs accRest with
+         | .error e => .error e
+         | .ok (acc', r) => .ok (slot :: acc', r)) := by
+  cases shape <;> simp only [decodeField, if_neg h] <;> cases decodeField X rest name evs accRest <;> rfl
+
+/-! ### clause: nothing but white space outside the root (code since 4f52948)
+
+`Deserializer::read_event` keeps the nesting depth and refuses character data outside the document element. On
+the event level: in what `deEvents` hands out, every character-data event at depth 0 is a white-space text
+(`TopClean`). What a decoder consumes is a sequence of complete elements and character data (`Consumes`, by
+mutual induction on the schema), so the cursor is back at depth 0 behind the root's end tag. -/
+
+/-- a text piece that is white space only (space, tab, CR, LF); a CDATA section is not -/
+def Ev.isWsText : Ev → Bool
+  | .text raw => raw.all isWs
+  | _ => false
+
+/-- nesting depth behind the events `evs` when it is `d` in front of them (`End` saturates like the code) -/
+def depthAfter : Nat → List Ev → Nat
+  | d, [] => d
+  | d, .start _ _ :: t => depthAfter (d + 1) t
+  | d, .stop _ :: t => depthAfter (d - 1) t
+  | d, _ :: t => depthAfter d t
+
+/-- `TopClean d evs`: with `d` elements open in front of `evs`, every character-data event of `evs` that stands
+outside all elements is a white-space text (no CDATA section there) -/
+def TopClean : Nat → List Ev → Prop
+  | _, [] => True
+  | d, .start _ _ :: t => TopClean (d + 1) t
+  | d, .stop _ :: t => TopClean (d - 1) t
+  | d, .text raw :: t => (d = 0 → raw.all isWs = true) ∧ TopClean d t
+  | d, .cdata _ :: t => d ≠ 0 ∧ TopClean d t
+  | d, .bad _ :: t => TopClean d t
+
+/-- **what `read_event` hands out is clean outside the root**, for every token sequence and every depth -/
+theorem deEventsAt_topClean : ∀ (q : List QEv) (d : Nat), TopClean d (deEventsAt d q)
+  | [], d => by simp [deEventsAt, TopClean]
+  | .start n r :: t, d => by simp only [deEventsAt, TopClean]; exact deEventsAt_topClean t (d + 1)
+  | .stop n :: t, d => by simp only [deEventsAt, TopClean]; exact deEventsAt_topClean t (d - 1)
+  | .empty n r :: t, d => by
+    simp only [deEventsAt, TopClean, Nat.add_sub_cancel]; exact deEventsAt_topClean t d
+  | .text raw :: t, d => by
+    simp only [deEventsAt]
+    split
+    · simp [TopClean]
+    · rename_i hc
+      simp only [TopClean]
+      refine ⟨fun hd => ?_, deEventsAt_topClean t d⟩
+      cases hw : raw.all isWs with
+      | true => rfl
+      | false => exact absurd ⟨hd, hw⟩ hc
+  | .cdata c :: t, d => by
+    simp only [deEventsAt]
+    split
+    · simp [TopClean]
+    · rename_i hc
+      simp only [TopClean]
+      exact ⟨hc, deEventsAt_topClean t d⟩
+  | .err :: t, d => by simp [deEventsAt, TopClean]
+  | .comment :: t, d => by simp only [deEventsAt]; exact deEventsAt_topClean t d
+  | .decl :: t, d => by simp only [deEventsAt]; exact deEventsAt_topClean t d
+  | .pi :: t, d => by simp only [deEventsAt]; exact deEventsAt_topClean t d
+  | .doctype :: t, d => by simp only [deEventsAt]; exact deEventsAt_topClean t d
+
+theorem depthAfter_append : ∀ (a b : List Ev) (d : Nat), depthAfter d (a ++ b) = depthAfter (depthAfter d a) b
+  | [], _, _ => rfl
+  | .start _ _ :: t, b, d => by simp only [List.cons_append, depthAfter]; exact depthAfter_append t b (d + 1)
+  | .stop _ :: t, b, d => by simp only [List.cons_append, depthAfter]; exact depthAfter_append t b (d - 1)
+  | .text _ :: t, b, d => by simp only [List.cons_append, depthAfter]; exact depthAfter_append t b d
+  | .cdata _ :: t, b, d => by simp only [List.cons_append, depthAfter]; exact depthAfter_append t b d
+  | .bad _ :: t, b, d => by simp only [List.cons_append, depthAfter]; exact depthAfter_append t b d
+
+/-- cleanliness is handed on to what follows, at the depth reached -/
+theorem topClean_append : ∀ (a b : List Ev) (d : Nat), TopClean d (a ++ b) → TopClean (depthAfter d a) b
+  | [], _, _, h => h
+  | .start _ _ :: t, b, d, h => by
+    simp only [List.cons_append, TopClean] at h; exact topClean_append t b (d + 1) h
+  | .stop _ :: t, b, d, h => by
+    simp only [List.cons_append, TopClean] at h; exact topClean_append t b (d - 1) h
+  | .text _ :: t, b, d, h => by
+    simp only [List.cons_append, TopClean] at h; exact topClean_append t b d h.2
+  | .cdata _ :: t, b, d, h => by
+    simp only [List.cons_append, TopClean] at h; exact topClean_append t b d h.2
+  | .bad _ :: t, b, d, h => by
+    simp only [List.cons_append, TopClean] at h; exact topClean_append t b d h
+
+theorem depthAfter_texts : ∀ (pre : List Ev) (d : Nat), pre.all Ev.isText = true → depthAfter d pre = d
+  | [], _, _ => rfl
+  | .text _ :: t, d, h => by
+    simp only [List.all_cons, Ev.isText, Bool.true_and] at h; simp only [depthAfter]; exact depthAfter_texts t d h
+  | .cdata _ :: t, d, h => by
+    simp only [List.all_cons, Ev.isText, Bool.true_and] at h; simp only [depthAfter]; exact depthAfter_texts t d h
+  | .start _ _ :: _, _, h | .stop _ :: _, _, h | .bad _ :: _, _, h => by simp [Ev.isText] at h
+
+/-- character data outside every element is white-space text -/
+theorem topClean_texts : ∀ (pre rest : List Ev), pre.all Ev.isText = true → TopClean 0 (pre ++ rest) →
+    pre.all Ev.isWsText = true
+  | [], _, _, _ => rfl
+  | .text raw :: t, rest, h, hc => by
+    simp only [List.all_cons, Ev.isText, Bool.true_and] at h
+    simp only [List.cons_append, TopClean] at hc
+    have hws : raw.all isWs = true := hc.1 (by trivial)
+    simp only [List.all_cons, Ev.isWsText, hws, Bool.true_and]
+    exact topClean_texts t rest h hc.2
+  | .cdata _ :: t, rest, h, hc => by
+    simp only [List.cons_append, TopClean] at hc
+    exact absurd rfl hc.1
+  | .start _ _ :: _, _, h, _ | .stop _ :: _, _, h, _ | .bad _ :: _, _, h, _ => by simp [Ev.isText] at h
+
+/-- `Consumes evs post`: `post` is what is left of `evs` after a sequence of complete elements and character data
+has been taken from its front — the depth behind the taken part is the depth in front of it -/
+def Consumes (evs post : List Ev) : Prop := ∃ c, evs = c ++ post ∧ ∀ d, depthAfter d c = d
+
+theorem Consumes.refl (evs : List Ev) : Consumes evs evs := ⟨[], rfl, fun _ => rfl⟩
+
+theorem Consumes.trans {a b c : List Ev} (h1 : Consumes a b) (h2 : Consumes b c) : Consumes a c := by
+  obtain ⟨x, hx, hbx⟩ := h1
+  obtain ⟨y, hy, hby⟩ := h2
+  refine ⟨x ++ y, by rw [hx, hy, List.append_assoc], fun d => ?_⟩
+  rw [depthAfter_append, hbx, hby]
+
+theorem Consumes.texts {pre rest : List Ev} (h : pre.all Ev.isText = true) : Consumes (pre ++ rest) rest :=
+  ⟨pre, rfl, fun d => depthAfter_texts pre d h⟩
+
+theorem Consumes.skipText (evs : List Ev) : Consumes evs (skipText evs) := by
+  obtain ⟨pre, h1, h2⟩ := skipText_split evs
+  have := Consumes.texts (rest := Xml.skipText evs) h2
+  rwa [← h1] at this
+
+/-- a whole element: start tag, a consumed content, end tag -/
+theorem Consumes.elem {n a m : Bytes} {body rest : List Ev} (h : Consumes body (.stop m :: rest)) :
+    Consumes (.start n a :: body) rest := by
+  obtain ⟨c, hc, hb⟩ := h
+  refine ⟨.start n a :: (c ++ [.stop m]), by simp [hc], fun d => ?_⟩
+  simp only [depthAfter, depthAfter_append, hb, Nat.add_sub_cancel]
+
+theorem Consumes.expectEnd {name : Bytes} {evs r : List Ev} (h : expectEnd name evs = .ok r) :
+    Consumes evs (.stop name :: r) := by
+  obtain ⟨pre, h1, h2⟩ := expectEnd_ok h
+  rw [h1]; exact Consumes.texts h2
+
+theorem topClean_consumes {evs post : List Ev} {d : Nat} (h : Consumes evs post) (hc : TopClean d evs) :
+    TopClean d post := by
+  obtain ⟨c, hcc, hb⟩ := h
+  have := topClean_append c post d (hcc ▸ hc)
+  rwa [hb] at this
+
+/-- `Deserializer::text` takes character data only -/
+theorem textLoop_consumes : ∀ (evs : List Ev) (single joined : Option Bytes) (raw : Bytes) (r : List Ev),
+    textLoop single joined evs = .ok (raw, r) → Consumes evs r
+  | [], _, _, _, _, h => by simp [textLoop] at h
+  | .start _ _ :: _, _, _, _, _, h => by simp [textLoop] at h
+  | .bad _ :: _, _, _, _, _, h => by simp [textLoop] at h
+  | .stop n :: t, single, joined, raw, r, h => by
+    have : r = .stop n :: t := by
+      simp only [textLoop] at h
+      cases joined with
+      | some s => simp at h; exact h.2.symm
+      | none =>
+        cases single with
+        | some x => simp at h; exact h.2.symm
+        | none => simp at h; exact h.2.symm
+    rw [this]; exact Consumes.refl _
+  | .text x :: t, single, joined, raw, r, h => by
+    have hstep : Consumes (.text x :: t) t := Consumes.texts (pre := [.text x]) (by simp [Ev.isText])
+    simp only [textLoop] at h
+    split at h
+    · exact hstep.trans (textLoop_consumes t _ _ raw r h)
+    · split at h
+      · cases h
+      · split at h
+        · cases h
+        · exact hstep.trans (textLoop_consumes t _ _ raw r h)
+  | .cdata c :: t, single, joined, raw, r, h => by
+    have hstep : Consumes (.cdata c :: t) t := Consumes.texts (pre := [.cdata c]) (by simp [Ev.isText])
+    simp only [textLoop] at h
+    split at h
+    · cases h
+    · split at h
+      · exact hstep.trans (textLoop_consumes t _ _ raw r h)
+      · cases h
+
+/-- `for_each_element` takes complete elements (and the character data between them) when its callback does -/
+theorem forEach_consumes {α : Type} (f : Bytes → List Ev → α → R α)
+    (hf : ∀ n evs acc acc' r, f n evs acc = .ok (acc', r) → Consumes evs r) :
+    ∀ (fuel : Nat) (evs : List Ev) (acc acc' : α) (rest : List Ev),
+      forEach f fuel evs acc = .ok (acc', rest) → Consumes evs rest
+  | 0, _, _, _, _, h => by simp [forEach] at h
+  | fuel + 1, evs, acc, acc', rest, h => by
+    have hskip := Consumes.skipText evs
+    simp only [forEach] at h
+    split at h
+    · rename_i n a r heq
+      rw [heq] at hskip
+      cases hfr : f n r acc with
+      | error e => simp [hfr] at h
+      | ok p =>
+        obtain ⟨acc1, r1⟩ := p
+        simp only [hfr] at h
+        cases hend : expectEnd n r1 with
+        | error e => simp [hend] at h
+        | ok r2 =>
+          simp only [hend] at h
+          have h1 := hf n r acc acc1 r1 hfr
+          have h2 := Consumes.expectEnd hend
+          have h3 := forEach_consumes f hf fuel r2 acc1 acc' rest h
+          exact hskip.trans ((Consumes.elem (n := n) (a := a) (h1.trans h2)).trans h3)
+    · cases h
+    · rename_i heq _ _
+      cases h
+      exact hskip
+
+theorem decode_scalar_inv (X : Ext) {s : Sch} {evs post : List Ev} {v : Val} (hs : isScalar s = true)
+    (h : decode X s evs = .ok (v, post)) : ∃ raw, textOf evs = .ok (raw, post) := by
+  cases s <;> first
+    | (simp [isScalar] at hs; done)
+    | (rw [decode.eq_3 X _ _ (by intros; contradiction) (by intros; contradiction)] at h
+       cases ht : textOf evs with
+       | error e => simp [ht] at h
+       | ok p =>
+         obtain ⟨raw, r⟩ := p
+         simp only [ht] at h
+         split at h
+         · cases h
+         · cases h; exact ⟨raw, rfl⟩)
+
+theorem decode_scalar_consumes (X : Ext) {s : Sch} {evs post : List Ev} {v : Val} (hs : isScalar s = true)
+    (h : decode X s evs = .ok (v, post)) : Consumes evs post := by
+  obtain ⟨raw, hr⟩ := decode_scalar_inv X hs h
+  exact textLoop_consumes evs none none raw post hr
+
+mutual
+  /-- **what a decoder takes from the event stream is a sequence of complete elements and character data** -/
+  theorem decode_consumes (X : Ext) : ∀ (s : Sch) (evs : List Ev) (v : Val) (post : List Ev),
+      decode X s evs = .ok (v, post) → Consumes evs post
+    | .struct fs, evs, v, post, h => by
+      rw [decode.eq_1] at h
+      split at h
+      · cases h; exact Consumes.refl _
+      · cases hl : forEach (fun name evs acc => decodeField X fs name evs acc) (evs.length + 1) evs fs.emptyAcc with
+        | error e => simp [hl] at h
+        | ok p =>
+          obtain ⟨acc, r⟩ := p
+          simp only [hl] at h
+          cases hfin : fs.finish acc with
+          | error e => simp [hfin] at h
+          | ok fvs =>
+            simp only [hfin] at h
+            cases h
+            exact forEach_consumes _ (fun n evs acc acc' r hh => decodeField_consumes X fs n evs acc acc' r hh)
+              _ _ _ _ _ hl
+    | .union vs, evs, v, post, h => by
+      rw [decode.eq_2] at h
+      have hskip := Consumes.skipText evs
+      split at h
+      · rename_i n a r heq
+        rw [heq] at hskip
+        cases hv : decodeVariant X vs n r with
+        | error e => simp [hv] at h
+        | ok p =>
+          obtain ⟨v1, r1⟩ := p
+          simp only [hv] at h
+          cases hend : expectEnd n r1 with
+          | error e => simp [hend] at h
+          | ok r2 =>
+            simp only [hend] at h
+            cases h
+            have h1 := decodeVariant_consumes X vs n r v r1 hv
+            exact hskip.trans (Consumes.elem (n := n) (a := a) (h1.trans (Consumes.expectEnd hend)))
+      · cases h
+      · cases h
+    | .str, _, _, _, h => decode_scalar_consumes X rfl h
+    | .enm, _, _, _, h => decode_scalar_consumes X rfl h
+    | .i32, _, _, _, h => decode_scalar_consumes X rfl h
+    | .i64, _, _, _, h => decode_scalar_consumes X rfl h
+    | .bool, _, _, _, h => decode_scalar_consumes X rfl h
+    | .ts _, _, _, _, h => decode_scalar_consumes X rfl h
+  theorem decodeField_consumes (X : Ext) : ∀ (fs : Flds) (name : Bytes) (evs : List Ev) (acc acc' : List FVal)
+      (r : List Ev), decodeField X fs name evs acc = .ok (acc', r) → Consumes evs r
+    | .nil, _, _, _, _, _, h => by simp [decodeField] at h
+    | .cons tag pres shape s rest, name, evs, [], _, _, h => by cases shape <;> simp [decodeField] at h
+    | .cons tag pres shape s rest, name, evs, slot :: accRest, acc', r, h => by
+      by_cases hn : name = tag
+      · cases shape with
+        | single =>
+          simp only [decodeField, if_pos hn] at h
+          split at h
+          · cases hd : decode X s evs with
+            | error e => simp [hd] at h
+            | ok p =>
+              obtain ⟨v, r1⟩ := p
+              simp only [hd] at h
+              cases h
+              exact decode_consumes X s evs v _ hd
+          · cases h
+        | wrapped m =>
+          simp only [decodeField, if_pos hn] at h
+          split at h
+          · cases hd : forEach (listItem (fun evs => decode X s evs) m) (evs.length + 1) evs [] with
+            | error e => simp [hd] at h
+            | ok p =>
+              obtain ⟨l, r1⟩ := p
+              simp only [hd] at h
+              cases h
+              refine forEach_consumes _ ?_ _ _ _ _ _ hd
+              intro n evs' l0 l1 r' hh
+              simp only [listItem] at hh
+              split at hh
+              · cases hd' : decode X s evs' with
+                | error e => simp [hd'] at hh
+                | ok p' =>
+                  obtain ⟨v', r''⟩ := p'
+                  simp only [hd'] at hh
+                  cases hh
+                  exact decode_consumes X s evs' v' _ hd'
+              · cases hh
+          · cases h
+        | flat =>
+          simp only [decodeField, if_pos hn] at h
+          cases hd : decode X s evs with
+          | error e => simp [hd] at h
+          | ok p =>
+            obtain ⟨v, r1⟩ := p
+            simp only [hd] at h
+            cases h
+            exact decode_consumes X s evs v _ hd
+      · rw [decodeField_ne' X hn] at h
+        cases hd : decodeField X rest name evs accRest with
+        | error e => simp [hd] at h
+        | ok p =>
+          obtain ⟨a1, r1⟩ := p
+          simp only [hd] at h
+          cases h
+          exact decodeField_consumes X rest name evs accRest a1 _ hd
+  theorem decodeVariant_consumes (X : Ext) : ∀ (vars : Vars) (name : Bytes) (evs : List Ev) (v : Val) (r : List Ev),
+      decodeVariant X vars name evs = .ok (v, r) → Consumes evs r
+    | .nil, _, _, _, _, h => by simp [decodeVariant] at h
+    | .cons t s rest, name, evs, v, r, h => by
+      by_cases hn : name = t
+      · simp only [decodeVariant, if_pos hn] at h
+        cases hd : decode X s evs with
+        | error e => simp [hd] at h
+        | ok p =>
+          obtain ⟨v1, r1⟩ := p
+          simp only [hd] at h
+          cases h
+          exact decode_consumes X s evs v1 _ hd
+      · simp only [decodeVariant, if_neg hn] at h
+        exact decodeVariant_consumes X rest name evs v r h
+end
+
+/-- **an accepted document has nothing but white space around its root element.** For every token sequence `q`
+the deserialiser can be given: if the document is accepted, the events are `ws* <root …> content text* </root> ws*`
+and the end of input, where `ws` is a white-space-only text piece — no other character data, no CDATA section. -/
+theorem decodeDoc_named_clean (X : Ext) {root : Bytes} {s : Sch} {q : List QEv} {v : Val}
+    (h : decodeDoc X (.named root) s (deEvents q) = .ok v) :
+    ∃ pre a body post mid tail,
+      deEvents q = pre ++ .start root a :: body ∧ pre.all Ev.isWsText = true ∧
+      decode X s body = .ok (v, post) ∧
+      post = mid ++ .stop root :: tail ∧ mid.all Ev.isText = true ∧ tail.all Ev.isWsText = true := by
+  obtain ⟨pre, a, body, post, mid, tail, he, hp, hd, hm, hmt, ht⟩ := decodeDoc_named_ok X h
+  have hclean : TopClean 0 (deEvents q) := deEventsAt_topClean q 0
+  refine ⟨pre, a, body, post, mid, tail, he, ?_, hd, hm, hmt, ?_⟩
+  · rw [he] at hclean
+    exact topClean_texts pre _ hp hclean
+  · rw [he] at hclean
+    have h1 : TopClean 0 (.start root a :: body) := by
+      have := topClean_append pre _ 0 hclean
+      rwa [depthAfter_texts pre 0 hp] at this
+    have h2 : TopClean 1 body := by simpa [TopClean] using h1
+    have h3 : TopClean 1 post := topClean_consumes (decode_consumes X s body v post hd) h2
+    rw [hm] at h3
+    have h4 : TopClean 1 (.stop root :: tail) := by
+      have := topClean_append mid _ 1 h3
+      rwa [depthAfter_texts mid 1 hmt] at this
+    have h5 : TopClean 0 tail := by simpa [TopClean] using h4
+    have := topClean_texts tail [] ht (by simpa using h5)
+    exact this
 
 /-! ### clause: known elements -/
 
